@@ -49,14 +49,14 @@ export function* generate({ tier, seed }) {
     yield mk(tf, ['spreadIdent', k], OPTION_VARIANTS.filter((o) => !o.customElementPatterns && !o.optimize));
   }
   // 3. exhaustive ordered sequences over the enumeration alphabet
-  const maxLen = tier === 'quick' ? 2 : 3;
+  const maxLen = tier === 'quick' ? 3 : 4;
   const seqVariants = OPTION_VARIANTS.filter((o) => !o.customElementPatterns && !o.optimize);
   for (const tf of ENUM_TAGS) for (const seq of sequences(ENUM_ALPHABET, maxLen)) {
     if (seq.length < 2) continue;
-    yield mk(tf, seq, tier === 'quick' ? [seqVariants[rng.int(seqVariants.length)]] : seqVariants);
+    yield mk(tf, seq, tier === 'quick' || seq.length > 3 ? [seqVariants[rng.int(seqVariants.length)]] : seqVariants);
   }
   // 4. random longer sequences over everything
-  const nRandom = tier === 'quick' ? 1500 : 40000;
+  const nRandom = tier === 'quick' ? 15000 : 300000;
   for (let i = 0; i < nRandom; i++) {
     const tf = rng.pick(TAG_FORMS);
     const len = 1 + rng.int(7);
@@ -124,8 +124,8 @@ export async function check(group, records) {
 
 export function meta({ tier }) {
   return {
-    rule: 'G-ELEM: (tag form x ordered attribute-kind sequence x option set); every tag form bare and with attributes under all 16 option sets, every attribute kind alone / before / after a spread on an element and a component, all ordered sequences of length <= ' + (tier === 'quick' ? 2 : 3) + ' over a 12-kind alphabet, plus seeded random sequences of length <= 7. distinct_nontrivial counts distinct (tag form, attribute-kind sequence, option set) among conclusive evaluations that have >= 1 attribute or a non-string tag.',
-    exhaustive: ['every standard HTML (118) and SVG (80) tag name', `all ordered attribute sequences of length 2..${tier === 'quick' ? 2 : 3} over 12 kinds x {div, imported component}`],
+    rule: 'G-ELEM: (tag form x ordered attribute-kind sequence x option set); every tag form bare and with attributes under all 16 option sets, every attribute kind alone / before / after a spread on an element and a component, all ordered sequences of length <= ' + (tier === 'quick' ? 3 : 4) + ' over a 12-kind alphabet, plus seeded random sequences of length <= 7. distinct_nontrivial counts distinct (tag form, attribute-kind sequence, option set) among conclusive evaluations that have >= 1 attribute or a non-string tag.',
+    exhaustive: ['every standard HTML (118) and SVG (80) tag name', `all ordered attribute sequences of length 2..${tier === 'quick' ? 3 : 4} over 12 kinds x {div, imported component}`],
     assumptions: ['mock vue runtime is faithful to Vue 3 mergeProps/normalizeClass/normalizeStyle', 'SWC parser/resolver/hygiene/fixer/codegen are correct', 'repeated plain attribute names and identical repeated listeners are not generated (statement does not decide them)'],
   };
 }
